@@ -99,6 +99,31 @@ def _weighted(cls, o, directed):
     return cls(csr_matrix(A))
 
 
+def _check_weight_forms(cls, o, directed, bad, label):
+    """the same weighted adjacency (weights that are not whole numbers) in the documented forms - a dense ndarray (float64,
+    float32) or a csr matrix: the graph keeps the weights it was given"""
+    n = o["n"]
+    A = np.zeros((n, n))
+    for a, b in o["edges"]:
+        A[a, b] = _wt(a, b) * 0.5 + 0.25
+        if not directed:
+            A[b, a] = A[a, b]
+    for fname, M in (("a dense float64 array", A.copy()), ("a dense float32 array", A.astype(np.float32)), ("a csr matrix", csr_matrix(A))):
+        try:
+            g = cls(M)
+            got = np.asarray(g.adjacency_matrix.todense(), dtype=float)
+        except Exception as e:
+            bad.append((label + "a weighted adjacency given as %s is refused (%s)" % (fname, type(e).__name__), {"msg": str(e)[:100]}, None))
+            continue
+        if got.shape != A.shape or not np.allclose(got, A, rtol=0, atol=1e-6):
+            bad.append((label + "a weighted adjacency given as %s does not keep its weights (truncated / dropped edges?)" % fname, {}, None))
+            continue
+        for a, b in o["edges"][:3]:
+            if not bool(g.is_edge(a, b)):
+                bad.append((label + "an edge of weight %.2f given through %s is not an edge" % (A[a, b], fname), {"edge": [a, b]}, None))
+                break
+
+
 def _check_signed(cls, o, directed, bad, label):
     """an edge is an edge whatever the sign of its weight: edge set, edge tests, adjacency lists, neighbour relations"""
     n = o["n"]
@@ -284,6 +309,7 @@ def check_ug(o):
         _check_weighted(wg, o, False, bad, "UndirectedGraph (weighted): ")
         _check_orders(ms.UndirectedGraph, o, False, bad, "UndirectedGraph (weighted): ")
         _check_signed(ms.UndirectedGraph, o, False, bad, "UndirectedGraph (signed weights): ")
+        _check_weight_forms(ms.UndirectedGraph, o, False, bad, "UndirectedGraph: ")
         if o["mst"] >= 0:
             for root in range(n):
                 t = wg.minimum_spanning_tree(root)
@@ -353,6 +379,7 @@ def check_dg(o):
         _check_weighted(_weighted(ms.DirectedGraph, o, True), o, True, bad, "DirectedGraph (weighted): ")
         _check_orders(ms.DirectedGraph, o, True, bad, "DirectedGraph (weighted): ")
         _check_signed(ms.DirectedGraph, o, True, bad, "DirectedGraph (signed weights): ")
+        _check_weight_forms(ms.DirectedGraph, o, True, bad, "DirectedGraph: ")
     return bad
 
 
@@ -485,7 +512,52 @@ def check_grid(o):
     return bad
 
 
-CHECKS = {"ug": check_ug, "dg": check_dg, "tree": check_tree, "grid": check_grid}
+def check_predef(o):
+    """the predefined graph builders (empty / star / complete / chain, open and closed) for every graph class they accept"""
+    import menpo.shape as ms
+    from menpo.shape import graph_predefined as gp
+
+    bad = []
+    n = o["n"]
+    P = _pts(n)
+    shape = ms.PointCloud(P)
+    want_dir = {tuple(e) for e in o["edges"]}                 # directed edge set of the specification
+    want_und = {tuple(sorted(e)) for e in o["edges"]}
+    kind = o["shape"]
+    classes = [("PointUndirectedGraph", False), ("UndirectedGraph", False), ("PointDirectedGraph", True), ("DirectedGraph", True)]
+    if o["is_tree"]:
+        classes += [("PointTree", True), ("Tree", True)]
+    for cname, directed in classes:
+        cls = getattr(ms, cname)
+        label = "%s_graph(n=%d%s, graph_cls=%s): " % (kind, n, {"chain": ", closed=%r" % o["closed"], "star": ", root=%d" % o["root"]}.get(kind, ""), cname)
+        try:
+            if kind == "chain":
+                g = gp.chain_graph(shape, graph_cls=cls, closed=o["closed"])
+            elif kind == "star":
+                g = gp.star_graph(shape, o["root"], graph_cls=cls)
+            elif kind == "complete":
+                g = gp.complete_graph(shape, graph_cls=cls)
+            else:
+                if cname not in ("PointUndirectedGraph", "UndirectedGraph"):
+                    continue
+                g = gp.empty_graph(shape, return_pointgraph=cname.startswith("Point"))
+        except Exception as e:
+            bad.append((label + "raised %s" % type(e).__name__, {"msg": str(e)[:100]}, None))
+            continue
+        A = np.asarray(g.adjacency_matrix.todense()) != 0
+        got = {(int(i), int(j)) for i, j in zip(*np.nonzero(A))}
+        want = want_dir if directed else ({(a, b) for a, b in want_und} | {(b, a) for a, b in want_und})
+        if got != want:
+            bad.append((label + "edges are not those of the named graph", {"missing": sorted(want - got)[:4], "extra": sorted(got - want)[:4]}, None))
+            continue
+        if hasattr(g, "points") and not np.array_equal(g.points, P):
+            bad.append((label + "does not carry the points of the shape", {}, None))
+        if kind == "chain" and directed and not o["is_tree"] and bool(g.has_cycles()) != o["closed"]:
+            bad.append((label + "has_cycles() is %r" % bool(g.has_cycles()), {}, None))
+    return bad
+
+
+CHECKS = {"ug": check_ug, "dg": check_dg, "tree": check_tree, "grid": check_grid, "predef": check_predef}
 
 
 def run_case(o):
